@@ -139,6 +139,7 @@ func InsertComments(text string, r *fw.Rand, anyLine bool, freq int) string {
 	content := contentLines(lines)
 	var out []string
 	memberW := -1
+	prevIndent := ""
 	for i, l := range lines {
 		if isBlank(l) || content[i] {
 			out = append(out, l)
@@ -160,16 +161,26 @@ func InsertComments(text string, r *fw.Rand, anyLine bool, freq int) string {
 			boundary = false
 		}
 		if boundary && (freq <= 1 || r.Intn(freq) == 0) {
-			switch r.Intn(3) {
+			switch r.Intn(6) {
 			case 0:
 				out = append(out, "# inserted comment: !type X [~y] <: int")
 			case 1:
 				out = append(out, l[:n]+"# inserted \"indented\" comment")
-			default:
+			case 2:
 				out = append(out, l[:n]+"#")
+			case 3:
+				// at the indentation of the previous code line (e.g. trailing a nested block
+				// that the next line closes)
+				out = append(out, prevIndent+"# comment trailing the previous block")
+			case 4:
+				// deeper than both neighbours
+				out = append(out, prevIndent+l[:n]+"    # deeper comment")
+			default:
+				out = append(out, strings.Repeat(" ", r.Intn(13))+"# comment at an arbitrary column")
 			}
 		}
 		out = append(out, l)
+		prevIndent = l[:n]
 	}
 	if r.Chance(1, 2) {
 		out = append(out, "# trailing comment")
